@@ -216,6 +216,19 @@ CATALOGUE = [
 """, note="the original defect (fixed in /repo): a synced palette refreshes its accessors only; make_report() "
           "and Palette.get_color() keep the formatters of the previous global configuration"),
     # ------------------------------------------------------------------ C08
+    dict(id="m08_zero_flag_ignored", prop="C08", file="ak/color.py",
+         old="        elif width_part.startswith('0'):\n",
+         new="        elif width_part.startswith('00000'):\n",
+         note="the original defect (fixed in /repo): the '0' flag of a width without a fill character is ignored"),
+    dict(id="m08_make_keeps_empty_chunks", prop="C08", file="ak/color.py",
+         old="        if not all(c.text for c in chunks_list):\n            chunks_list = [c for c in chunks_list if c.text]\n",
+         new="",
+         note="the original defect (fixed in /repo): CHText.make keeps pieces with empty text; such a text compares "
+              "unequal to the same text built in any other way"),
+    dict(id="m10_title_palette_without_parent", prop="C10", file="ak/ppobj.py",
+         old="        PARENT_PALETTES = [FieldType.PALETTE_CLASS, ]\n\n        SYNTAX_DEFAULTS = {\n            # synt_id: default_color\n            'RECORD.TITLE'",
+         new="        SYNTAX_DEFAULTS = {\n            # synt_id: default_color\n            'RECORD.TITLE'",
+         note="the original defect (fixed in /repo): the title palette does not name the record palette as a parent"),
     dict(id="m08_result_operand_via_str", prop="C08", file="ak/color.py",
          old="        elif hasattr(other, 'get_ch_text'):\n",
          new="        elif hasattr(other, 'get_ch_text_'):\n",
